@@ -211,7 +211,7 @@ pub fn property(ctx: &Ctx) -> Property {
         id: "C06",
         rule: "cases: properly nested histories with at least one push_layer_with_blend group (opacity in {0,1,0.5,1/255-neighbours,uniform}, 28 blend modes) at top level or under a clip (rect at an offset / partly off-surface / inverted, quarter-grid path), containing fills, fill_rects, masks, clear, image draws, quarter-pixel transform changes, balanced clip pushes and nested layers (depth <= 3), on non-transparent initial contents. Oracle: the group's inner ops are replayed without the layer on a separate transparent surface with the same transform and clip stack (nested layers judged recursively there); after pop every pixel must equal the compositor formula with source = isolated group pixel, coverage = round(255 opacity), clip coverage = product of pushed path coverages, blend = layer blend (exact at opacity 1 without partial clip, +-3/255 otherwise); outside the clip rectangle unchanged; the base surface must not change while the layer is open; push/pop leave the transform alone. Non-trivial: opacity != 1, blend != SrcOver, nesting >= 2, layer origin != (0,0) or clear inside; distinct by hash of the case.",
         assumptions: vec!["the inner draws themselves (on a plain surface) are judged by C02/C03/C05", "improperly interleaved stacks (popping inside a layer a clip pushed outside it) are outside the statement and not generated"],
-        parts: vec![part("group", 25_000, 600_000, move || strategy(&c), check)],
+        parts: vec![part("group", 100_000, 1_500_000, move || strategy(&c), check)],
         min_class_fraction: vec![
             ("group", "opacity-partial", 0.2),
             ("group", "layer-blend-non-srcover", 0.3),
